@@ -3,9 +3,9 @@ from __future__ import annotations
 import fcntl, hashlib, json, os, re, subprocess, sys, tempfile, time, shutil, random
 from pathlib import Path
 
-VERIF = Path("/verif")
+VERIF = Path(__file__).resolve().parents[2]   # /verif (or an isolated copy of it)
 COQ = VERIF / "coq"
-REPO = Path("/repo")
+REPO = Path(os.environ.get("OPC_REPO", "/repo"))   # the tree under verification (OPC_REPO: scratch copy for mutation tests)
 BUILD = VERIF / "build"
 PY = "/venv/bin/python"
 
@@ -79,7 +79,7 @@ def build(regen=True, timeout=1500) -> BuildResult:
                 return BuildResult(False, f"translator {k} failed:\n{msg}", failing_file=k, failing_item=f"translator:{k}", regen=rg)
         if not (COQ / "Makefile").exists() or (COQ / "Makefile").stat().st_mtime < (COQ / "_CoqProject").stat().st_mtime:
             subprocess.run(["coq_makefile", "-f", "_CoqProject", "-o", "Makefile"], cwd=COQ, capture_output=True, text=True, check=True)
-        r = subprocess.run(["timeout", str(timeout), "make", "-j16"], cwd=COQ, capture_output=True, text=True)
+        r = subprocess.run(["timeout", str(timeout), "make", "-k", "-j16"], cwd=COQ, capture_output=True, text=True)
         log = r.stdout + r.stderr
         if r.returncode == 0:
             return BuildResult(True, log, regen=rg)
